@@ -340,6 +340,81 @@ fn run(sc: &Value) -> Value {
                     Err(err) => json!({"err": format!("{:#}", err)}),
                 }
             }
+            "set_position" => {
+                let v = w.subst(&st["position"]);
+                let pos: mantra_dex_std::farm_manager::Position = serde_json::from_value(v).expect("Position json");
+                let fm = w.addr("farm_manager");
+                let mut stg = w.app.contract_storage_mut(&fm);
+                match farm_manager::state::POSITIONS.save(&mut *stg, &pos.identifier.clone(), &pos) {
+                    Ok(_) => json!({"ok": null}),
+                    Err(err) => json!({"err": format!("{:#}", err)}),
+                }
+            }
+            "set_farm" => {
+                let v = w.subst(&st["farm"]);
+                let farm: mantra_dex_std::farm_manager::Farm = serde_json::from_value(v).expect("Farm json");
+                let fm = w.addr("farm_manager");
+                let mut stg = w.app.contract_storage_mut(&fm);
+                match farm_manager::state::FARMS.save(&mut *stg, &farm.identifier.clone(), &farm) {
+                    Ok(_) => json!({"ok": null}),
+                    Err(err) => json!({"err": format!("{:#}", err)}),
+                }
+            }
+            "set_weight" => {
+                let a = w.addr(st["addr"].as_str().unwrap());
+                let d = w.subst(&st["denom"]);
+                let e = u64_of(&st["epoch"]);
+                let wt = Uint128::new(u128_of(&st["weight"]));
+                let fm = w.addr("farm_manager");
+                let mut stg = w.app.contract_storage_mut(&fm);
+                match farm_manager::state::LP_WEIGHT_HISTORY.save(&mut *stg, (&a, d.as_str().unwrap(), e), &wt) {
+                    Ok(_) => json!({"ok": null}),
+                    Err(err) => json!({"err": format!("{:#}", err)}),
+                }
+            }
+            "set_last_claimed" => {
+                let a = w.addr(st["addr"].as_str().unwrap());
+                let e = u64_of(&st["epoch"]);
+                let fm = w.addr("farm_manager");
+                let mut stg = w.app.contract_storage_mut(&fm);
+                match farm_manager::state::LAST_CLAIMED_EPOCH.save(&mut *stg, &a, &e) {
+                    Ok(_) => json!({"ok": null}),
+                    Err(err) => json!({"err": format!("{:#}", err)}),
+                }
+            }
+            "set_counter" => {
+                let fm = w.addr("farm_manager");
+                let mut stg = w.app.contract_storage_mut(&fm);
+                let which = st["which"].as_str().unwrap_or("position");
+                let v = u64_of(&st["value"]);
+                let r = if which == "farm" { farm_manager::state::FARM_COUNTER.save(&mut *stg, &v) } else { farm_manager::state::POSITION_ID_COUNTER.save(&mut *stg, &v) };
+                match r {
+                    Ok(_) => json!({"ok": null}),
+                    Err(err) => json!({"err": format!("{:#}", err)}),
+                }
+            }
+            "get_weight" => {
+                let a = w.addr(st["addr"].as_str().unwrap());
+                let d = w.subst(&st["denom"]);
+                let e = u64_of(&st["epoch"]);
+                let fm = w.addr("farm_manager");
+                let stg = w.app.contract_storage(&fm);
+                match farm_manager::state::LP_WEIGHT_HISTORY.may_load(&*stg, (&a, d.as_str().unwrap(), e)) {
+                    Ok(Some(v)) => json!({"ok": v.to_string()}),
+                    Ok(None) => json!({"ok": null}),
+                    Err(err) => json!({"err": format!("{:#}", err)}),
+                }
+            }
+            "get_last_claimed" => {
+                let a = w.addr(st["addr"].as_str().unwrap());
+                let fm = w.addr("farm_manager");
+                let stg = w.app.contract_storage(&fm);
+                match farm_manager::state::LAST_CLAIMED_EPOCH.may_load(&*stg, &a) {
+                    Ok(Some(v)) => json!({"ok": v.to_string()}),
+                    Ok(None) => json!({"ok": null}),
+                    Err(err) => json!({"err": format!("{:#}", err)}),
+                }
+            }
             "addr" => {
                 let a = w.addr(st["label"].as_str().unwrap());
                 json!({"ok": a.to_string()})
